@@ -244,32 +244,70 @@ func unreadUse(c *ssa.Call) ssa.Instruction {
 		}
 		return false
 	}
-	seen := map[*ssa.BasicBlock]bool{}
+	type wst struct {
+		b      *ssa.BasicBlock
+		failed bool
+	}
+	seen := map[wst]bool{}
 	var found ssa.Instruction
-	var walk func(b *ssa.BasicBlock, from int)
-	walk = func(b *ssa.BasicBlock, from int) {
+	// after a failure has been established the buffer may still be given back to its pool or returned beside the error;
+	// anything else that consumes it treats the failed read as data (if err != nil && err != io.ErrUnexpectedEOF {…})
+	cleanup := func(in ssa.Instruction) bool {
+		switch x := in.(type) {
+		case *ssa.Return:
+			return true
+		case ssa.CallInstruction:
+			cc := x.Common()
+			if h := cc.StaticCallee(); h != nil && !cc.IsInvoke() {
+				if h.Name() == "PutBuffer" || (h.Name() == "Put" && h.Pkg != nil && h.Pkg.Pkg.Path() == "sync") {
+					return true
+				}
+			}
+		case *ssa.MakeInterface:
+			// pool.Put(buf) boxes the slice first
+			for _, ref := range *x.Referrers() {
+				if ci, ok := ref.(ssa.CallInstruction); ok {
+					if h := ci.Common().StaticCallee(); h != nil && h.Name() == "Put" {
+						continue
+					}
+				}
+				return false
+			}
+			return true
+		}
+		return false
+	}
+	var walk func(b *ssa.BasicBlock, from int, failed bool)
+	walk = func(b *ssa.BasicBlock, from int, failed bool) {
 		for i := from; i < len(b.Instrs) && found == nil; i++ {
 			in := b.Instrs[i]
 			if in == ssa.Instruction(c) {
 				return // the next round of a loop: a new read, judged on its own
 			}
-			if consumes(in) {
+			if consumes(in) && !(failed && cleanup(in)) {
 				found = in
 				return
 			}
 		}
 		for _, s := range b.Succs {
-			if found != nil || seen[s] {
+			if found != nil {
 				continue
 			}
-			if edgeSays(b, s) != 0 {
+			nf := failed
+			switch edgeSays(b, s) {
+			case 1:
+				continue
+			case 2:
+				nf = true
+			}
+			if seen[wst{s, nf}] {
 				continue
 			}
-			seen[s] = true
-			walk(s, 0)
+			seen[wst{s, nf}] = true
+			walk(s, 0, nf)
 		}
 	}
-	walk(c.Block(), instrIndex(c)+1)
+	walk(c.Block(), instrIndex(c)+1, false)
 	_ = f
 	_ = types.Typ
 	return found
